@@ -39,7 +39,7 @@ def transports(ck):
     rng = ck.rng
     n = 900 if ck.thorough else 70
     pool = [T.TCP, T.TCP, T.UDP, T.WSRTSP, T.WSP, T.HTTPFLV, T.WSFLV, T.MCAST]
-    cases = [T.gen_case(rng, True, pool, max_pkts=22 if ck.thorough else 14) for _ in range(n)]
+    cases = [T.gen_case(rng, True, pool, max_pkts=22 if ck.thorough else 14, replace_p=0.2) for _ in range(n)]
     obs = ck.stream("transports", cases, None, "C01_transports", "C01_wire_ok", compare=False,
                     nontrivial=lambda c: len(c[2]) >= 2 or c[3][0][0] == 0,
                     sig=lambda c, e, o: "transport-delivery", timeout=1500)
